@@ -86,10 +86,11 @@ type c15case struct {
 	rate    c15rate
 	workers int
 	delay   string
+	stall   time.Duration // the first probe (its Scan call / its write) lasts that long: the limiter idles, then must not let more than its fixed allowance burst out
 }
 
 func (k c15case) String() string {
-	return fmt.Sprintf("%s --rate %s target=%s workers=%d exit-delay=%s", k.cmd.name, k.rate.text, k.tg.name, k.workers, k.delay)
+	return fmt.Sprintf("%s --rate %s target=%s workers=%d exit-delay=%s first-probe-stalls=%v", k.cmd.name, k.rate.text, k.tg.name, k.workers, k.delay, k.stall)
 }
 
 func c15build(k c15case) (*vE2ESpec, *int64) {
@@ -109,7 +110,33 @@ func c15build(k c15case) (*vE2ESpec, *int64) {
 	injT := new(int64)
 	*injT = -1
 	per := int64(k.rate.win) / k.rate.n
-	if k.cmd.kind != "app" && per >= 2 && k.tg.name != "201-ranges" {
+	if k.stall > 0 {
+		st := k.stall
+		if k.cmd.kind == "app" {
+			sc.ProbeDelay = func(_ string, _ uint16, nth int) time.Duration {
+				if nth == 0 {
+					return st
+				}
+				return 0
+			}
+		} else {
+			world := sc.World
+			sc.World = func(w *zzvenv.World) {
+				if world != nil {
+					world(w)
+				} else {
+					vDefaultWorld(w)
+				}
+				w.WriteDelay = func(n int) time.Duration {
+					if n == 0 {
+						return st
+					}
+					return 0
+				}
+			}
+		}
+	}
+	if k.cmd.kind != "app" && per >= 2 && k.tg.name != "201-ranges" && k.stall == 0 {
 		frame := c15reply(k.cmd, false)
 		sc.Net = func(r *vE2ERun) {
 			// the sender is asleep in the limiter between the probes at 0 and at per
@@ -219,7 +246,7 @@ func verifC15(c *drv.Ctx) {
 	}
 	portless := []c15target{{"16", "10.0.1.0/28", "", 16}, {"32", "10.0.1.0/27", "", 32}}
 	chunked := c15target{"201-ranges", "10.0.1.1/32", p201, 201}
-	c.R.Rule = "every scan command (12) x every rate spelling of the table (N, N/s, N/<k>ms|s|m; N in 1..1000(65535), windows 1 ms..1 min(1 h)) x probe counts {16, 32|40} (+ a 201-range port list = 2 chunks, 2 limiters), application scans x workers {1, 2, 3, 100}; " +
+	c.R.Rule = "every scan command (12) x every rate spelling of the table (N, N/s, N/<k>ms|s|m; N in 1..1000(65535), windows 1 ms..1 min(1 h)) x probe counts {16, 32|40} (+ a 201-range port list = 2 chunks, 2 limiters), application scans x workers {1, 2, 3, 100}; plus, per command, 3 rates with N > 10 where the first probe stalls for 1.5 windows (60/64 probes follow: the idle limiter may release only its fixed allowance at once); " +
 		"one run of the real command per case on the virtual clock with the real uber limiter; a reply-shaped frame is injected while the sender sleeps in the limiter. Oracle: any k consecutive departures span >= (k-1-10)*floor(W/N); #limiter calls = #probes per thread; " +
 		"one limiter per engine run; the injected frame is read at the instant of injection and reported. Then a schedule exploration (deviation bound 1, thorough 2 on the smaller one) of two application scans (2 and 3 workers) under the same oracle. non-trivial = more than 11 probes (the bound says nothing below that)"
 	idx := 0
@@ -270,6 +297,21 @@ func verifC15(c *drv.Ctx) {
 				} else {
 					runCase(c15case{cmd: cmd, tg: tg, rate: rate})
 				}
+			}
+		}
+		// a stall: the first probe lasts 1.5 windows, the limiter idles meanwhile
+		for _, rt := range []c15rate{{"40/s", 40, time.Second}, {"100/100ms", 100, 100 * time.Millisecond}, {"12/7s", 12, 7 * time.Second}} {
+			tg := c15target{"60", "10.0.1.0/30", "1-15", 60}
+			if !cmd.ports {
+				tg = c15target{"64", "10.0.1.0/26", "", 64}
+			}
+			w := 0
+			if cmd.kind == "app" {
+				w = 1
+			}
+			runCase(c15case{cmd: cmd, tg: tg, rate: rt, workers: w, stall: rt.win * 3 / 2})
+			if cmd.kind == "app" && (c.Thorough() || rt.n == 40) {
+				runCase(c15case{cmd: cmd, tg: tg, rate: rt, workers: 3, stall: rt.win * 3 / 2})
 			}
 		}
 		if cmd.ports && (c.Thorough() || cmd.name == "tcp-syn" || cmd.name == "udp" || cmd.name == "socks") {
